@@ -777,6 +777,27 @@ func seqSites(p *Program) []string {
 			defer func() { curNames = nil }()
 			for _, b := range f.Blocks {
 				for _, in := range b.Instrs {
+					if c, ok := in.(*ssa.Call); ok {
+						// the builtins max / min order their operands as plain unsigned integers
+						if bi, ok := c.Call.Value.(*ssa.Builtin); ok && (bi.Name() == "max" || bi.Name() == "min") {
+							seq, consts := false, 0
+							for _, a := range c.Call.Args {
+								if _, isC := a.(*ssa.Const); isC {
+									consts++
+									continue
+								}
+								bt, ok := a.Type().Underlying().(*types.Basic)
+								if ok && (bt.Kind() == types.Uint32 || bt.Kind() == types.Uint16) && isSeqTyped(a, 0) {
+									seq = true
+								}
+							}
+							if seq && consts == 0 {
+								pos := p.Fset.Position(c.Pos())
+								out = append(out, fmt.Sprintf("%s (%s:%d, builtin %s)", k, baseName(pos.Filename), pos.Line, bi.Name()))
+							}
+						}
+						continue
+					}
 					t, ok := in.(*ssa.BinOp)
 					if !ok {
 						continue
